@@ -277,13 +277,33 @@ func ruleGem(p *Prog, r *Report) {
 				}
 			}
 		}
-		preSite, forced := "", ""
+		preSite, forced, conditional := "", "", ""
 		for _, fn := range p.RepoReachable(e.NewVer) {
 			for _, b := range fn.Blocks {
 				for _, ins := range b.Instrs {
 					if c, ok := ins.(*ssa.Call); ok && mk != nil && c.Call.StaticCallee() == mk {
 						if s, ok := constString(c.Call.Args[0]); ok && s == "pre" {
 							preSite = p.Pos(c.Pos())
+							// the insertion may depend on the presence of the hyphen part only, not on its content
+							loops := findLoops(fn)
+							domEdges(b, func(cond ssa.Value, tv bool) bool {
+								// leaving an earlier loop is not a condition on the hyphen part
+								if refs := cond.Referrers(); refs != nil {
+									for _, ref := range *refs {
+										if iff, ok := ref.(*ssa.If); ok {
+											for _, l := range loops {
+												if l.header == iff.Block() && !l.body[b] {
+													return false
+												}
+											}
+										}
+									}
+								}
+								if !presenceTest(cond) {
+									conditional = p.Pos(cond.Pos()) + " " + cond.String()
+								}
+								return false
+							})
 						}
 					}
 					// a segment literal with isNumeric forced to false outside the segment constructor
@@ -306,6 +326,8 @@ func ruleGem(p *Prog, r *Report) {
 			r.Und("R-GEM-PRE", key, p.FnPos(e.NewVer), "segment constructor (string -> segment) not found")
 		case preSite == "":
 			r.Bad("R-GEM-PRE", key, p.FnPos(e.NewVer), "no segment \"pre\" is inserted for a hyphen: 1.0.0-1 would not be a pre-release of 1.0.0")
+		case conditional != "":
+			r.Bad("R-GEM-PRE", key, preSite, "the segment \"pre\" is inserted only under the condition "+conditional+", which looks at more than the presence of the hyphen part: Gem::Version replaces every '-' by '.pre.'")
 		case forced != "":
 			r.Bad("R-GEM-PRE", key, forced, "a segment is built with isNumeric forced to false outside the segment constructor: numbers after a hyphen would compare as text (alpha.10 < alpha.2)")
 		default:
@@ -315,6 +337,60 @@ func ruleGem(p *Prog, r *Report) {
 	r.Floor("R-GEM-TABLE", 3)
 	r.Floor("R-GEM-TRIM", 1)
 	r.Floor("R-GEM-PRE", 1)
+}
+
+// presenceTest: the condition only tests whether a text is empty or whether a separator was found
+func presenceTest(cond ssa.Value) bool {
+	switch x := cond.(type) {
+	case *ssa.BinOp:
+		switch x.Op {
+		case token.EQL, token.NEQ, token.LSS, token.GTR, token.GEQ, token.LEQ:
+		default:
+			return false
+		}
+		if isEmptyConst(x.X) || isEmptyConst(x.Y) {
+			return true
+		}
+		for _, side := range []ssa.Value{x.X, x.Y} {
+			other := x.Y
+			if side == x.Y {
+				other = x.X
+			}
+			if _, ok := constInt(other); !ok {
+				continue
+			}
+			if c, ok := side.(*ssa.Call); ok {
+				if b, ok := c.Call.Value.(*ssa.Builtin); ok && b.Name() == "len" {
+					return true
+				}
+				if f := c.Call.StaticCallee(); f != nil {
+					switch extName(f) {
+					case "strings.Index", "strings.IndexByte", "strings.IndexRune", "strings.LastIndex", "strings.Count":
+						return true
+					}
+				}
+			}
+			if _, ok := side.(*ssa.Phi); ok {
+				return true // an index kept in a variable
+			}
+		}
+		return false
+	case *ssa.Extract:
+		if c, ok := x.Tuple.(*ssa.Call); ok {
+			if f := c.Call.StaticCallee(); f != nil && extName(f) == "strings.Cut" && x.Index == 2 {
+				return true
+			}
+		}
+	case *ssa.Call:
+		if f := x.Call.StaticCallee(); f != nil && extName(f) == "strings.Contains" {
+			return true
+		}
+	case *ssa.UnOp:
+		if x.Op == token.NOT {
+			return presenceTest(x.X)
+		}
+	}
+	return false
 }
 
 func init() {
